@@ -191,6 +191,16 @@ Theorem C11_proto_wire_decoder_roundtrip :
 Proof. exact wire_fields_enc. Qed.
 Print Assumptions C11_proto_wire_decoder_roundtrip.
 
+(* the byte-level walker (mirror of marshalTo: ConsumeTag, Skip per wire type, ReadLength, speculative length, inner errors
+   propagated) computes exactly the encoding of the projected wire tree - tags re-encoded, lengths recomputed - for every
+   message whose projection exists, at every nesting depth *)
+From DG Require Import ProtoCutRefine.
+Theorem C11_proto_cut_refines_projection :
+  forall d dis fuel fi ti bs forest, small bs -> pproject d dis fuel fi ti bs = COk forest ->
+  pbcut d dis false fuel fi ti bs 0 = (0, [], enc_forest forest).
+Proof. exact pbcut_whole_message. Qed.
+Print Assumptions C11_proto_cut_refines_projection.
+
 (* F{x=7, m={a=10, b="x"}} cut from FU{1:int32, 2:InU{2:string}, 7:string} to itself with DisallowUnknown: the nested
    field 1 is unknown -> the specification demands an error; the unrepaired walker (quirk) drops the inner error *)
 Definition ex_pdefs : pdefs := [ [(1, 5, -1); (2, 11, 1); (7, 9, -1)]; [(2, 9, -1)] ].
